@@ -2,7 +2,7 @@ import features
 import behaviours
 
 STREAM_A = behaviours.stream_hook("MC_Stream", {"quick": "MC_Stream_q", "thorough": "MC_Stream_t"})
-NEG_STREAM = [("MC_Stream", "NEG_Stream_" + v) for v in ("insert_before_read", "key_by_start", "no_seek", "read_not_exact", "no_length_guard", "eager_read", "lazy_seek")]
+NEG_STREAM = [("MC_Stream", "NEG_Stream_" + v) for v in ("insert_before_read", "key_by_start", "no_seek", "read_not_exact", "no_length_guard", "eager_read", "lazy_seek", "evict_on_pressure")]
 """Per-property recipes: which bounded instances are model-checked and replayed (direction A),
 which generator families are recorded and trace-validated (direction B), and which rejection
 reasons count for the property."""
@@ -199,7 +199,7 @@ RECIPES = {
     },
     "C08": {
         "custom": [STREAM_A],
-        "neg": {"quick": [NEG_STREAM[4], NEG_STREAM[5]]},
+        "neg": {"quick": [NEG_STREAM[4], NEG_STREAM[5], NEG_STREAM[7]]},
         "level": "model_checking",
         "families": {"quick": [("sbig", 14, 4), ("stream", 5, 2)], "thorough": [("sbig", 120, 10), ("stream", 40, 4)]},
         "reasons": ("bound", "lazy", "panic", "died"),
